@@ -30,7 +30,11 @@ from ._logger import QuietLogger, log
 from ._protocol.incoming import DNSIncoming
 from ._transport import _WrappedTransport, make_wrapped_transport
 from ._utils.time import current_time_millis, millis_to_seconds
-from .const import _DUPLICATE_PACKET_SUPPRESSION_INTERVAL, _MAX_MSG_ABSOLUTE
+from .const import (
+    _DUPLICATE_PACKET_SUPPRESSION_INTERVAL,
+    _MAX_MSG_ABSOLUTE,
+    _MDNS_PORT,
+)
 
 if TYPE_CHECKING:
     from ._core import Zeroconf
@@ -116,6 +120,9 @@ class AsyncListener:
             and (now - _DUPLICATE_PACKET_SUPPRESSION_INTERVAL) < self.last_time
             and self.last_message is not None
             and not self.last_message.has_qu_question()
+            # A query from a legacy source port is answered by unicast to that
+            # source, the same bytes from another source are not a duplicate
+            and (addrs[1] == _MDNS_PORT or addrs[:2] == self.last_message.source)
         ):
             # Guard against duplicate packets
             if debug:
